@@ -3,7 +3,7 @@
     is stored under — whereas the original validation let a document about another identifier through. *)
 From Coq Require Import Strings.String Strings.Byte.
 From Coq Require Import List Arith NArith ZArith Bool Lia.
-From PV Require Import Base.Bytes Base.Outcome Base.KV Did.Model Did.Props.
+From PV Require Import Base.Bytes Base.Base64 Base.Base64Proofs Base.Outcome Base.KV Did.Model Did.Props.
 From PV Require Import Chain.Model Chain.Run Chain.DidProps Chain.ExampleDid.
 Import ListNotations.
 
@@ -68,3 +68,26 @@ Qed.
 Example did_genesis_nonvacuous :
   validate_did_genesis [(D1, {| en_doc := Some (doc_with K1); en_seq := 256 |}); (D2, {| en_doc := Some empty_doc; en_seq := 3 |})] = true.
 Proof. vm_compute. reflexivity. Qed.
+
+(** * the read operation as clients call it: the did_base64 field *)
+
+(** a well-formed request — the standard base64 encoding of a DID — reads exactly that DID *)
+Theorem q_did64_wellformed st did : q_did64 st (base64 did) = Some (q_did st did).
+Proof. unfold q_did64. rewrite b64_decode_base64. reflexivity. Qed.
+
+(** whatever the field holds: a document is returned only for a field that decodes, and it is about the decoded identifier *)
+Theorem q_did64_about_the_request st raw doc seq :
+  Inv_did st -> q_did64 st raw = Some (DFound doc seq) ->
+  exists did, b64_decode raw = Some did /\ doc_id doc = did.
+Proof.
+  intros HI H. unfold q_did64 in H. destruct (b64_decode raw) as [did|] eqn:E; [|discriminate].
+  cbn [option_map] in H. injection H as H. exists did. split; [reflexivity|].
+  exact (resolves_to_itself _ did doc seq HI H).
+Qed.
+
+(** a field that does not decode is refused, never looked up under a part of it *)
+Theorem q_did64_malformed_refused st raw : b64_decode raw = None -> q_did64 st raw = None.
+Proof. intros E. unfold q_did64. rewrite E. reflexivity. Qed.
+
+Example q_did64_unpadded_refused : forall st, q_did64 st (b "ZGlkOnBhbmFjZWE6MTExMTExMTExMTExMTExMTExMTExMTExMTExMTExMTExMQ") = None.
+Proof. intros st. reflexivity. Qed.
